@@ -57,7 +57,7 @@ func runDetMarshal(c *simrun.Ctx) *simrun.Violation {
 	proto0 := corpus[t.Draw("type", len(corpus))]
 	mt := proto0.ProtoReflect().Type()
 	md := mt.Descriptor()
-	cfg := simval.GenCfg{MaxDepth: 1 + t.Draw("maxdepth", 3), MaxFields: 1 + t.Draw("maxfields", 6), MaxMapEntries: 2 + t.Draw("maxentries", 8), MaxListLen: 1 + t.Draw("maxlist", 3)}
+	cfg := simval.GenCfg{MaxDepth: 1 + t.Draw("maxdepth", 3), MaxFields: 1 + t.Draw("maxfields", 6), MaxMapEntries: 2 + t.Draw("maxentries", 8), MaxListLen: 1 + t.Draw("maxlist", 3), AnyTargets: anyTargets()}
 	av := simval.Gen(t, md, cfg)
 	canon := simval.Canon(av)
 	pr := simval.ProbeValue(av)
@@ -99,6 +99,21 @@ func runDetMarshal(c *simrun.Ctx) *simrun.Violation {
 		}
 		results[i] = make([]string, n)
 	}
+	// noise: tasks that marshal and size WITHOUT the Deterministic option at
+	// the same time (their results are not compared; whatever they share with
+	// the deterministic calls must not leak into those)
+	nNoise := t.Draw("noise-tasks", 3)
+	noise := make([]proto.Message, nNoise)
+	noiseOps := make([]int, nNoise)
+	for i := range noise {
+		noise[i] = build()
+		noiseOps[i] = 1 + t.Draw("noise-ops", 4)
+		if noise[i] == nil {
+			st.Add("runs_discarded_build_mismatch", 1)
+			return nil
+		}
+	}
+	noiseSeed := uint64(t.Draw("noise-ordseed", 1<<30))
 	reference := build()
 	if reference == nil {
 		st.Add("runs_discarded_build_mismatch", 1)
@@ -114,6 +129,21 @@ func runDetMarshal(c *simrun.Ctx) *simrun.Violation {
 				results[i][j] = detMarshal(msgs[i], op)
 			}
 		})
+	}
+	for i := range noise {
+		i := i
+		sched.Add(func(_ *simhook.Task) {
+			defer func() { recover() }()
+			for j := 0; j < noiseOps[i]; j++ {
+				simhook.SetTaskOrd(&simhook.OrderCtl{Seed: simhook.Mix(noiseSeed, uint64(i), uint64(j)), Mode: simhook.OrdShuffle, NoSiteStats: true})
+				proto.Marshal(noise[i])
+				proto.Size(noise[i])
+			}
+			simhook.SetTaskOrd(nil)
+		})
+	}
+	if nNoise > 0 {
+		st.Add("fault_concurrent_nondeterministic_marshals", int64(nNoise))
 	}
 	sched.Choose = func(runnable []int, last []int) (int, int) {
 		return runnable[t.Draw("task", len(runnable))], quanta[t.Draw("quantum", len(quanta))]
